@@ -5,6 +5,8 @@
 (* driver from VERIF_SEED.  quick is a filter of the same set expression as thorough plus seed-rotated   *)
 (* draws from the full product.                                                                          *)
 EXTENDS Integers, Sequences, FiniteSets, SequencesExt, Json, IOUtils, TLC
+\* the option part of the builder (setter calls as actions; the option state is a function of the call ORDER)
+O == INSTANCE MpqBuildOpts WITH ListfileAttrSource <- "attrs", oph <- "config", oopt <- 0, ocalls <- <<>>, olisted <- {}
 
 Thorough == IOEnv.VERIF_TIER = "thorough"
 SeedN    == atoi(IOEnv.VERIF_SEED)
@@ -75,10 +77,49 @@ DupCases == {[ver |-> v, shift |-> 3, method |-> 2, enc |-> "plain", crc |-> FAL
               tablecomp |-> FALSE, nfiles |-> 4, dup |-> d] :
                v \in {1, 2, 3, 4}, lf \in BOOLEAN, d \in {"case", "slash", "exact", "caseslash"}}
 
+\* ---- builder option calls ------------------------------------------------------------------------------------------------
+\* Every case carries `opts`, the sequence of setter calls the driver makes (MpqBuildOpts!OptCalls); the option state that
+\* build() sees is MpqBuildOpts!EffOpts(opts) -- computed by TLC again when the trace is validated, never by the driver.
+OnOff(b) == IF b THEN "on" ELSE "off"
+LfCall(c) == <<"listfile", IF c.listfile THEN "generate" ELSE "none">>
+\* the order the product cases always used: generate_crcs(crc) ; attributes_option(attrs) -- it reaches four of the six
+\* (sector CRC, attributes) combinations (MC_MpqBuildOpts ASSUMEs which); "ac" is the other order
+CallsOf(c, order) == IF order = "ca" THEN <<<<"crcs", OnOff(c.crc)>>, <<"attrs", c.attrs>>, LfCall(c)>>
+                     ELSE <<<<"attrs", c.attrs>>, <<"crcs", OnOff(c.crc)>>, LfCall(c)>>
+WithCalls(c, order) == c @@ [opts |-> CallsOf(c, order)]
+\* quick slice of the two combinations only the order "ac" reaches (CRC off + attributes CRC32 / full), with the whole
+\* 39-member file set: base configuration x version {1, 4} x shift {0, 3, 8} (+ one encrypted / one uncompressed)
+EffSlice == {[Base EXCEPT !.ver = v, !.shift = sh, !.attrs = a, !.enc = en, !.method = m] :
+               v \in {1, 4}, sh \in {0, 3, 8}, a \in {"crc32", "full"}, en \in {"plain"}, m \in {2}}
+            \cup {[Base EXCEPT !.ver = v, !.attrs = a, !.enc = "encfix", !.method = 0] : v \in {2, 3}, a \in {"crc32", "full"}}
+\* thorough: the order is a ninth dimension of the product, rotating with the coordinate sum + seed like the
+\* (listfile, tablecomp) pair (eight consecutive seeds enumerate the 62 208 = 31 104 x 2 configurations)
+OrderOf(c) == IF ((Idx(c) + SeedN) \div 4) % 2 = 0 THEN "ca" ELSE "ac"
+\* option-call HISTORIES as a dimension (both tiers): every sequence of up to two setter calls (all seven calls of
+\* MpqBuildOpts!OptCalls) for every version, and every sequence of three generate_crcs / attributes_option calls with the
+\* version rotating -- small archives (2 small + 4 one- and two-sector members at shift 0, checksums visible in the flags)
+CaCalls == {c \in O!OptCalls : c[1] \in {"crcs", "attrs"}}
+Hist2 == {<<>>} \cup {<<c>> : c \in O!OptCalls} \cup {<<c, d>> : c \in O!OptCalls, d \in O!OptCalls}
+Hist3 == {<<c, d, e>> : c \in CaCalls, d \in CaCalls, e \in CaCalls}
+Hist3All == {<<c, d, e>> : c \in O!OptCalls, d \in O!OptCalls, e \in O!OptCalls}
+HistCase(v, h) == LET o == O!EffOpts(h) IN
+                  [ver |-> v, shift |-> 0, method |-> 2, enc |-> "plain", crc |-> o.crc, attrs |-> o.attrs,
+                   listfile |-> o.listfile, tablecomp |-> FALSE, nfiles |-> 2, seccounts |-> <<1, 2>>, opts |-> h]
+H3Seq == SetToSeq(IF Thorough THEN Hist3All ELSE Hist3)
+OrderCases == {HistCase(v, h) : v \in Versions, h \in Hist2}
+              \cup {HistCase(((j + SeedN) % 4) + 1, H3Seq[j]) : j \in 1..Len(H3Seq)}
+\* the histories reach every (sector CRC, attributes) option state with a listfile, and archives without one
+ASSUME {<<c.crc, c.attrs>> : c \in {d \in OrderCases : d.listfile}} = BOOLEAN \X Attrs
+ASSUME \E c \in OrderCases : ~c.listfile
+
 CaseSet0 == IF Thorough THEN ThoroughSet \cup {c \in Full : InQuickAllVersions(c)} \cup Draws(100)
            ELSE {c \in Full : InQuick(c)} \cup Draws(24)
 ASSUME CaseSet0 \subseteq Full
-Cases == SetToSeq(CaseSet0) \o SetToSeq(TableCases) \o SetToSeq(WidthCases) \o SetToSeq(SecCountCases) \o SetToSeq(HugeCases) \o SetToSeq(DupCases)
+ProductCases == IF Thorough THEN {WithCalls(c, OrderOf(c)) : c \in CaseSet0}
+                ELSE {WithCalls(c, "ca") : c \in CaseSet0} \cup {WithCalls(c, "ac") : c \in EffSlice}
+Cases == SetToSeq(ProductCases)
+         \o SetToSeq({WithCalls(c, "ca") : c \in TableCases \cup WidthCases \cup SecCountCases \cup HugeCases \cup DupCases})
+         \o SetToSeq(OrderCases)
 ASSUME ndJsonSerialize(IOEnv.CASES, Cases)
 ASSUME PrintT(<<"GENERATED", Len(Cases), "of", Cardinality(Full)>>)
 =============================================================================
